@@ -147,7 +147,8 @@ def expected(items, workdir, shards=None, timeout=1500):
     def one(n):
         inf = os.path.join(workdir, "items%d.ndjson" % n)
         outf = os.path.join(workdir, "exp%d.ndjson" % n)
-        write_ndjson(inf, [{"id": it["id"], "module": norm_module(it["module"]), "script": it["script"], "fuel": it.get("fuel", 4000)}
+        write_ndjson(inf, [dict({"id": it["id"], "module": norm_module(it["module"]), "script": it["script"], "fuel": it.get("fuel", 4000)},
+                                **({"modules": [norm_module(m_) for m_ in it["modules"]]} if it.get("modules") else {}))
                            for it in parts[n]])
         res = tlc("Replay", env={"INFILE": inf, "OUTFILE": outf}, workers=1, timeout=timeout)
         tlc_ok(res, "Replay shard %d" % n)
@@ -194,7 +195,7 @@ static void hbegin(const char* callee, void* inst) {
   hostlen += (size_t)sprintf(hostlog + hostlen, "%s{\"callee\":\"%s\",\"inst\":%d,\"args\":[", hostn ? "," : "", callee, instIndex(inst)); hostn++; }
 static void hend(void) { hostlen += (size_t)sprintf(hostlog + hostlen, "]}"); }
 static wasmMemory* mems[16]; static int nmems;
-static wasmTable tables[16]; static int ntables;
+static wasmTable tabstore[16]; static wasmTable* tables[16]; static int ntables;
 static U64 gcells[64]; static int ngcells;
 static void dumpMem(wasmMemory* m) {
   U32 a, n = m->pages * 65536u; int first = 1;
@@ -242,15 +243,19 @@ def gen_harness(items, prefix):
     o = [HARNESS_HEAD]
     o.append("static F32 mkf32(U32 x) { F32 f; memcpy(&f, &x, 4); return f; }")
     o.append("static F64 mkf64(U64 x) { F64 f; memcpy(&f, &x, 8); return f; }")
+    def mods_of(it):
+        """[(C module name, module AST)]: the item's module and the further modules of a several-module scenario"""
+        return [(it["modname"], it["module"])] + [(it["modname"] + "abcdefgh"[k_], m_) for k_, m_ in enumerate(it.get("modules", []))]
     for it in items:
-        o.append('#include "%s.h"' % it["modname"])
+        for mod, _m in mods_of(it):
+            o.append('#include "%s.h"' % mod)
     # host functions
     emitted = set()
     for it in items:
-        m = it["module"]
+      for mod, m in mods_of(it):
         for im in func_imports(m):
             # with -m (several modules in one program) imported functions carry the importing module's prefix
-            cname = (it["modname"] + "_" if it.get("multi", True) else "") + (im.get("cident") or mangle(im["mod"]) + "__" + mangle(im["name"]))
+            cname = (mod + "_" if it.get("multi", True) else "") + (im.get("cident") or mangle(im["mod"]) + "__" + mangle(im["name"]))
             if cname in emitted:
                 continue
             emitted.add(cname)
@@ -264,34 +269,34 @@ def gen_harness(items, prefix):
             if ty["r"]:
                 o.append("  return %s;" % c_bytes_literal(ty["r"][0], im["ret"]))
             o.append("}")
-    # per item: resolver + runner
+    # per item: resolvers + runner
     for it in items:
-        m = it["module"]
-        mod = it["modname"]
         iid = it["id"]
-        o.append("static int %s_bmem, %s_btab, %s_bglob[16];" % (mod, mod, mod))
-        o.append("static void* %s_resolve(const char* module, const char* name) { (void)module;" % mod)
-        gi = 0
-        for im in m.get("imports", []):
-            # the resolver sees the names exactly as they are in the binary: imports with "wire_mod"/"wire_name"
-            # (arbitrary bytes) are matched on both strings, byte for byte
-            if "wire_name" in im:
-                cond = '!strcmp(module, "%s") && !strcmp(name, "%s")' % (c_octal(im["wire_mod"]), c_octal(im["wire_name"]))
-            else:
-                cond = '!strcmp(name, "%s")' % im["name"]
-            if im["kind"] == "memory":
-                o.append('  if (%s) return mems[%s_bmem - 1];' % (cond, mod))
-            elif im["kind"] == "table":
-                o.append('  if (%s) return &tables[%s_btab - 1];' % (cond, mod))
-            elif im["kind"] == "global":
-                o.append('  if (%s) return &gcells[%s_bglob[%d] - 1];' % (cond, mod, gi))
-                gi += 1
-        o.append("  return NULL; }")
-        o.append("static void run_%s(void) {" % mod)
-        o.append("  static %sInstance I[8]; static %sInstance* P[8]; static int memOf[8]; int ni = 0; (void)ni; (void)memOf; nmems = 0; ntables = 0; ngcells = 0; ninsts = 0; memset(tables, 0, sizeof tables); memset(mems, 0, sizeof mems);" % (mod, mod))
-        exports = {e["name"]: e for e in m.get("exports", [])}
-        memexp = [e["name"] for e in m.get("exports", []) if e["kind"] == "memory"]
-        inst_binds = []
+        ml = mods_of(it)
+        for mod, m in ml:
+            o.append("static int %s_bmem, %s_btab, %s_bglob[16];" % (mod, mod, mod))
+            o.append("static void* %s_resolve(const char* module, const char* name) { (void)module;" % mod)
+            gi = 0
+            for im in m.get("imports", []):
+                # the resolver sees the names exactly as they are in the binary: imports with "wire_mod"/"wire_name"
+                # (arbitrary bytes) are matched on both strings, byte for byte
+                if "wire_name" in im:
+                    cond = '!strcmp(module, "%s") && !strcmp(name, "%s")' % (c_octal(im["wire_mod"]), c_octal(im["wire_name"]))
+                else:
+                    cond = '!strcmp(name, "%s")' % im["name"]
+                if im["kind"] == "memory":
+                    o.append('  if (%s) return mems[%s_bmem - 1];' % (cond, mod))
+                elif im["kind"] == "table":
+                    o.append('  if (%s) return tables[%s_btab - 1];' % (cond, mod))
+                elif im["kind"] == "global":
+                    o.append('  if (%s) return &gcells[%s_bglob[%d] - 1];' % (cond, mod, gi))
+                    gi += 1
+            o.append("  return NULL; }")
+        o.append("static void run_%s(void) {" % it["modname"])
+        for mod, m in ml:
+            o.append("  static %sInstance I_%s[8];" % (mod, mod))
+        o.append("  static void* P[8]; static int memOf[8], tabOf[8]; int ni = 0; (void)ni; (void)memOf; (void)tabOf; nmems = 0; ntables = 0; ngcells = 0; ninsts = 0; memset(tables, 0, sizeof tables); memset(tabstore, 0, sizeof tabstore); memset(mems, 0, sizeof mems);")
+        inst_binds, inst_mod = [], []
         for k, op in enumerate(it["script"], start=1):
             o.append("  /* op %d: %s */" % (k, op["op"]))
             o.append('  opBegin("%s", %d);' % (iid, k))
@@ -300,44 +305,63 @@ def gen_harness(items, prefix):
                     op["pages"], op["max"], "true" if op.get("shared") else "false"))
                 o.append('  fprintf(out, ",\\"status\\":\\"done\\"");')
             elif op["op"] == "hosttable":
-                o.append("  wasmTableAllocate(&tables[ntables++], %d, %d);" % (op["size"], op["size"]))
+                o.append("  wasmTableAllocate(&tabstore[ntables], %d, %d); tables[ntables] = &tabstore[ntables]; ntables++;" % (op["size"], op["size"]))
                 o.append('  fprintf(out, ",\\"status\\":\\"done\\"");')
             elif op["op"] == "hostglobal":
                 o.append("  { %s v = %s; memcpy(&gcells[ngcells++], &v, sizeof v); }" % (CT[op["t"]], c_bytes_literal(op["t"], op["b"])))
                 o.append('  fprintf(out, ",\\"status\\":\\"done\\"");')
-            elif op["op"] == "instantiate":
-                b = op["binds"]
+            elif op["op"] in ("instantiate", "child"):
+                child = op["op"] == "child"
+                mi = inst_mod[op["inst"] - 1] if child else op.get("mod", 1) - 1
+                mod, m = ml[mi]
+                memexp = [e["name"] for e in m.get("exports", []) if e["kind"] == "memory"]
+                # a child is answered by the resolver as its parent was (or with other objects, when the operation carries bindings of its own)
+                b = (op.get("binds") or inst_binds[op["inst"] - 1]) if child else op["binds"]
                 inst_binds.append(b)
+                inst_mod.append(mi)
                 o.append("  %s_bmem = %d; %s_btab = %d;" % (mod, b["mem"], mod, b["table"]))
                 for j, a in enumerate(b["globals"]):
                     o.append("  %s_bglob[%d] = %d;" % (mod, j, a))
-                # "reuse": k = instantiate into the storage of instance k (which the script has freed before)
-                o.append("  P[ni] = %s; memOf[ni] = -1;" % ("P[%d]" % (op["reuse"] - 1) if op.get("reuse") else "&I[ni]"))
-                o.append("  insts[ninsts++] = P[ni];")
-                if not op.get("reuse"):
-                    # the embedder's storage for an instance is whatever it is (an automatic variable, malloc'ed): not zero
-                    o.append("  memset(P[ni], 0xA5, sizeof *P[ni]);")
-                o.append("  if (setjmp(jb) == 0) { %sInstantiate(P[ni], %s_resolve); fprintf(out, \",\\\"status\\\":\\\"%s\\\"\"); }" % (
-                    mod, mod, "returned" if m.get("start", -1) not in (None, -1) else "done"))
-                o.append('  else fprintf(out, ",\\"status\\":\\"trapped\\",\\"trap\\":\\"%s\\"", trapName(trapCode));')
-                if m.get("memory") and m["memory"].get("present", True):
+                started = "returned" if m.get("start", -1) not in (None, -1) else "done"
+                if not child:
+                    # "reuse": k = instantiate into the storage of instance k (which the script has freed before)
+                    o.append("  P[ni] = %s; memOf[ni] = -1; tabOf[ni] = -1;" % ("P[%d]" % (op["reuse"] - 1) if op.get("reuse") else "&I_%s[ni]" % mod))
+                    o.append("  insts[ninsts++] = P[ni];")
+                    if not op.get("reuse"):
+                        # the embedder's storage for an instance is whatever it is (an automatic variable, malloc'ed): not zero
+                        o.append("  memset(P[ni], 0xA5, sizeof(%sInstance));" % mod)
+                    o.append("  if (setjmp(jb) == 0) { %sInstantiate((%sInstance*)P[ni], %s_resolve); fprintf(out, \",\\\"status\\\":\\\"%s\\\"\"); }" % (mod, mod, mod, started))
+                    o.append('  else fprintf(out, ",\\"status\\":\\"trapped\\",\\"trap\\":\\"%s\\"", trapName(trapCode));')
+                else:
+                    # <module>NewChild through the instance's own common.newChild pointer, as wasi thread-spawn calls it.
+                    # The start function of the child runs inside newChild, before the pointer is known: host calls made
+                    # from it are attributed by childPending (the instance being created)
+                    o.append("  memOf[ni] = -1; tabOf[ni] = -1; childPending = 1;")
+                    o.append("  if (setjmp(jb) == 0) { P[ni] = ((%sInstance*)P[%d])->common.newChild((struct wasmModuleInstance*)P[%d]); fprintf(out, \",\\\"status\\\":\\\"%s\\\"\"); }" % (
+                        mod, op["inst"] - 1, op["inst"] - 1, started))
+                    o.append('  else { P[ni] = NULL; fprintf(out, ",\\"status\\":\\"trapped\\",\\"trap\\":\\"%s\\"", trapName(trapCode)); }')
+                    o.append("  childPending = 0; insts[ninsts++] = P[ni];")
+                if m.get("memory") and m["memory"].get("present", True) and not (child and m["memory"].get("shared")):
                     if memexp:
-                        o.append("  memOf[ni] = nmems; mems[nmems++] = %s_%s(P[ni]);" % (mod, mangle(memexp[0])))
+                        o.append("  memOf[ni] = nmems; mems[nmems++] = P[ni] ? %s_%s((%sInstance*)P[ni]) : NULL;" % (mod, mangle(memexp[0]), mod))
                     else:
                         o.append("  mems[nmems++] = NULL;")
                 if m.get("table") and m["table"].get("present", True):
-                    o.append("  ntables++; /* defined table: not observable from outside */")
+                    # a defined table is a member of the instance (t0): other modules' instances may be bound to it
+                    o.append("  tabOf[ni] = ntables; tables[ntables++] = P[ni] ? &((%sInstance*)P[ni])->t0 : NULL;" % mod)
                 if m.get("globals"):
                     o.append("  ngcells += %d; /* defined globals occupy store addresses too */" % len(m["globals"]))
                 o.append("  ni++;")
             elif op["op"] == "call":
+                mod, m = ml[inst_mod[op["inst"] - 1]]
+                exports = {e["name"]: e for e in m.get("exports", [])}
                 e = exports[op["export"]]
                 fi = e["idx"]
                 nfi = len(func_imports(m))
                 tyi = func_imports(m)[fi]["type"] if fi < nfi else m["funcs"][fi - nfi]["type"]
                 ty = m["types"][tyi]
                 args = "".join(",%s" % c_bytes_literal(a["t"], a["b"]) for a in op["args"])
-                call = "%s_%s(P[%d]%s)" % (mod, mangle(op["export"]), op["inst"] - 1, args)
+                call = "%s_%s((%sInstance*)P[%d]%s)" % (mod, mangle(op["export"]), mod, op["inst"] - 1, args)
                 o.append("  if (setjmp(jb) == 0) {")
                 if ty["r"]:
                     t = ty["r"][0]
@@ -347,42 +371,18 @@ def gen_harness(items, prefix):
                     o.append("    %s;" % call)
                     o.append('    fprintf(out, ",\\"status\\":\\"returned\\",\\"res\\":[]");')
                 o.append('  } else fprintf(out, ",\\"status\\":\\"trapped\\",\\"trap\\":\\"%s\\"", trapName(trapCode));')
-            elif op["op"] == "child":
-                # <module>NewChild through the instance's own common.newChild pointer, as wasi thread-spawn calls it;
-                # the resolver answers as it did for the parent
-                # (or with other objects, when the operation carries bindings of its own)
-                b = op.get("binds") or inst_binds[op["inst"] - 1]
-                o.append("  %s_bmem = %d; %s_btab = %d;" % (mod, b["mem"], mod, b["table"]))
-                for j, a in enumerate(b["globals"]):
-                    o.append("  %s_bglob[%d] = %d;" % (mod, j, a))
-                inst_binds.append(b)
-                # the start function of the child runs inside newChild, before the pointer is known: host calls made
-                # from it are attributed by childPending (the instance being created)
-                o.append("  memOf[ni] = -1; childPending = 1;")
-                o.append("  if (setjmp(jb) == 0) { P[ni] = (%sInstance*)P[%d]->common.newChild((struct wasmModuleInstance*)P[%d]); fprintf(out, \",\\\"status\\\":\\\"%s\\\"\"); }" % (
-                    mod, op["inst"] - 1, op["inst"] - 1, "returned" if m.get("start", -1) not in (None, -1) else "done"))
-                o.append('  else { P[ni] = NULL; fprintf(out, ",\\"status\\":\\"trapped\\",\\"trap\\":\\"%s\\"", trapName(trapCode)); }')
-                o.append("  childPending = 0; insts[ninsts++] = P[ni];")
-                if m.get("memory") and m["memory"].get("present", True) and not m["memory"].get("shared"):
-                    if memexp:
-                        o.append("  memOf[ni] = nmems; mems[nmems++] = %s_%s(P[ni]);" % (mod, mangle(memexp[0])))
-                    else:
-                        o.append("  mems[nmems++] = NULL;")
-                if m.get("table") and m["table"].get("present", True):
-                    o.append("  ntables++;")
-                if m.get("globals"):
-                    o.append("  ngcells += %d;" % len(m["globals"]))
-                o.append("  ni++;")
             elif op["op"] == "free":
-                # the instance is released; its memory (if it defined one) is no longer observable
-                o.append("  %sFreeInstance(P[%d]); if (memOf[%d] >= 0) mems[memOf[%d]] = NULL;" % (mod, op["inst"] - 1, op["inst"] - 1, op["inst"] - 1))
+                # the instance is released; its memory and table (if it defined them) are no longer observable
+                mod, m = ml[inst_mod[op["inst"] - 1]]
+                o.append("  %sFreeInstance((%sInstance*)P[%d]); if (memOf[%d] >= 0) mems[memOf[%d]] = NULL; if (tabOf[%d] >= 0) tables[tabOf[%d]] = NULL;" % (
+                    mod, mod, op["inst"] - 1, op["inst"] - 1, op["inst"] - 1, op["inst"] - 1, op["inst"] - 1))
                 o.append('  fprintf(out, ",\\"status\\":\\"done\\"");')
             else:
                 raise MachineryError("unknown script op " + op["op"])
             o.append("  opEnd();")
-            # tables owned by the harness (imported tables): slot -> export name or null
+            # tables: slot occupied or not (imported tables and the defined tables of live instances)
             o.append('  { int t_, s_; fprintf(out, ",\\"tables\\":["); for (t_ = 0; t_ < ntables; t_++) { fprintf(out, "%s[", t_ ? "," : "");')
-            o.append('    if (tables[t_].data) for (s_ = 0; s_ < (int)tables[t_].size; s_++) fprintf(out, "%s%d", s_ ? "," : "", tables[t_].data[s_] != NULL);')
+            o.append('    if (tables[t_] && tables[t_]->data) for (s_ = 0; s_ < (int)tables[t_]->size; s_++) fprintf(out, "%s%d", s_ ? "," : "", tables[t_]->data[s_] != NULL);')
             o.append('    fprintf(out, "]"); } fprintf(out, "]"); }')
             o.append('  fprintf(out, "}\\n"); fflush(out);')
         o.append("}")
@@ -447,16 +447,34 @@ def actual(items, w2c2, workdir, cc="gcc", cflags=("-O1",), batch=24, w2c2_opts=
                 f.write(it.get("wasm") or wasm_encode.encode(enc_module(it["module"])))
             if subdirs:
                 # (the blob of external data segments is linked in with ld -r -b binary as the project documents)
-                sub = os.path.join(d, it["modname"] + ".dir")
-                os.makedirs(sub, exist_ok=True)
-                it["subdir"] = sub
-                rc, out, err = run([w2c2, *w2c2_opts, wasm, os.path.join(sub, it["modname"] + ".c")], timeout=120, cwd=sub, env=w2c2_env)
-                if rc == 0 and os.path.exists(os.path.join(sub, "datasegments")):
-                    rc, out, err = run(["ld", "-r", "-b", "binary", "datasegments", "-o", "datasegments.o"], timeout=60, cwd=sub)
-                if rc == 0:
-                    shutil.copy(os.path.join(sub, it["modname"] + ".h"), os.path.join(d, it["modname"] + ".h"))
+                it["subdirs"] = []
+                rc = 0
+                for mn_, blob_ in [(it["modname"], None)] + [(it["modname"] + "abcdefgh"[k_], wasm_encode.encode(enc_module(m_))) for k_, m_ in enumerate(it.get("modules", []))]:
+                    if rc != 0:
+                        break
+                    sub = os.path.join(d, mn_ + ".dir")
+                    os.makedirs(sub, exist_ok=True)
+                    it["subdirs"].append((mn_, sub))
+                    wasm_ = wasm
+                    if blob_ is not None:
+                        wasm_ = os.path.join(d, mn_ + ".wasm")
+                        with open(wasm_, "wb") as f:
+                            f.write(blob_)
+                    rc, out, err = run([w2c2, *w2c2_opts, wasm_, os.path.join(sub, mn_ + ".c")], timeout=120, cwd=sub, env=w2c2_env)
+                    if rc == 0 and os.path.exists(os.path.join(sub, "datasegments")):
+                        rc, out, err = run(["ld", "-r", "-b", "binary", "datasegments", "-o", "datasegments.o"], timeout=60, cwd=sub)
+                    if rc == 0:
+                        shutil.copy(os.path.join(sub, mn_ + ".h"), os.path.join(d, mn_ + ".h"))
             else:
                 rc, out, err = run([w2c2, *(w2c2_opts or ("-m",)), wasm, os.path.join(d, it["modname"] + ".c")], timeout=120, cwd=d, env=w2c2_env)
+                # the further modules of a several-module scenario: translated the same way, linked into the same program
+                for k_, m_ in enumerate(it.get("modules", [])):
+                    if rc != 0:
+                        break
+                    mn_ = it["modname"] + "abcdefgh"[k_]
+                    with open(os.path.join(d, mn_ + ".wasm"), "wb") as f:
+                        f.write(wasm_encode.encode(enc_module(m_)))
+                    rc, out, err = run([w2c2, *(w2c2_opts or ("-m",)), mn_ + ".wasm", os.path.join(d, mn_ + ".c")], timeout=120, cwd=d, env=w2c2_env)
             if rc != 0:
                 problems.append(("translate", [it["id"]], "rc=%s %s" % (rc, err[-800:])))
             else:
@@ -473,21 +491,21 @@ def actual(items, w2c2, workdir, cc="gcc", cflags=("-O1",), batch=24, w2c2_opts=
         rc, out, err = run([cc, "-O0", "-w", *[f for f in cflags if f.startswith(("-fsanitize", "-std", "-m"))], *inc,
                             "-c", "harness.c", "-o", "harness.o"], timeout=600, cwd=d)
         objs = []
-        for it in (good if subdirs else []):
+        for modname_, sub in ([x_ for it in good for x_ in it["subdirs"]] if subdirs else []):
             if rc != 0:
                 break
-            sub, parts = it["subdir"], []
+            parts = []
             for src in sorted(f_ for f_ in os.listdir(sub) if f_.endswith(".c")):
                 if rc == 0:
                     rc, out, err = run([cc, *cflags, "-w", *inc, "-c", src, "-o", src[:-2] + ".o"], timeout=600, cwd=sub)
                     parts.append(src[:-2] + ".o")
             if rc == 0 and os.path.exists(os.path.join(sub, "datasegments.o")):
                 parts.append("datasegments.o")
-            ob = os.path.join(d, it["modname"] + "-all.o")
+            ob = os.path.join(d, modname_ + "-all.o")
             if rc == 0:
                 rc, out, err = run(["ld", "-r", *parts, "-o", ob], timeout=60, cwd=sub)
             if rc == 0 and localize:
-                rc, out, err = run(["objcopy", "-w", "-G", it["modname"] + "*", ob], timeout=60, cwd=d)
+                rc, out, err = run(["objcopy", "-w", "-G", modname_ + "*", ob], timeout=60, cwd=d)
             objs.append(ob)
         for src in srcs:
             if rc != 0:
